@@ -120,6 +120,8 @@ def build(prop, cfg, wdir):
            "-gcflags=github.com/cloudwego/netpoll/mux=-lang=" + lang]
     if variant == "race":
         cmd.append("-race")
+    if cfg.get("fuzz"):
+        cmd += ["-fuzz", "^%s$" % cfg["fuzz"]]  # makes the go command compile with coverage instrumentation for the fuzzer
     cmd.append("./" + pkg if pkg != "." else ".")
     t0 = time.time()
     r = sh(cmd, cwd=REPO, env=goenv(), timeout=1800)
@@ -144,7 +146,11 @@ def shard_seed(seed, shard):
 
 def run_part(prop, tier, cfg, wdir, binary, replay, seed, exclude, t0, limit, state, first=True):
     shards = 1 if replay else int(cfg.get("shards", NCPU))
+    if cfg.get("fuzz"):
+        shards = 1
     checks = int(cfg.get("checks", 1000))
+    if cfg.get("fuzz"):
+        checks = 1  # one coordinator process, bounded by its fuzztime
     chunk = int(cfg.get("chunk", 0)) or checks
     if replay:
         chunk = checks
@@ -178,6 +184,11 @@ def run_part(prop, tier, cfg, wdir, binary, replay, seed, exclude, t0, limit, st
                "-rapid.shrinktime=%s" % cfg.get("shrinktime", "20s")]
         if cfg.get("steps"):
             cmd.append("-rapid.steps=%d" % cfg["steps"])
+        if cfg.get("fuzz"):
+            # coverage-guided run of the same property (Go native fuzzing through rapid.MakeFuzz): one coordinator
+            # process with NCPU workers for a fixed time; corpus, cache and any crasher stay in the shard directory
+            cmd = [binary, "-test.run", "^$", "-test.fuzz", "^%s$" % cfg["fuzz"], "-test.fuzztime", str(cfg.get("fuzztime", "120s")),
+                   "-test.fuzzcachedir", os.path.join(sdir, "fuzzcache"), "-test.parallel", str(NCPU), "-test.timeout=0"]
         if cfg.get("verbose"):
             cmd.append("-test.v")
 
@@ -267,7 +278,7 @@ def main():
             log("unknown argument", args[i]); sys.exit(2)
     seed = int(os.environ.get("VERIF_SEED", "1") or "1")
     t0 = time.time()
-    wdir = os.path.join(WORK, "%s-%s" % (prop, tier if not replay else "replay"))
+    wdir = os.path.join(WORK, "%s-%s%s" % (prop, tier if not replay else "replay", os.environ.get("VERIF_WORK_SUFFIX", "")))
     shutil.rmtree(wdir, ignore_errors=True)
     os.makedirs(wdir)
     known = [k for k in known_findings() if k.get("property") == prop and k.get("status") == "known"]
@@ -292,6 +303,8 @@ def main():
         pdir = os.path.join(wdir, "part%d" % pi) if len(parts) > 1 else wdir
         os.makedirs(pdir, exist_ok=True)
         if replay and len(parts) > 1 and part.get("replay_marker") and part["replay_marker"] not in open(replay).read():
+            continue
+        if part.get("only_tier") and (part["only_tier"] != tier or replay):
             continue
         binary = build(prop, pcfg, pdir)
         pj, shards = run_part(prop, tier, pcfg, pdir, binary, replay, seed, exclude, t0, limit, state, first=(pi == 0))
@@ -320,6 +333,14 @@ def main():
         logtxt = open(os.path.join(sdir, "log.txt"), errors="replace").read()
         m = passed_re.findall(logtxt)
         executed += sum(int(x) for x in m)
+        if pcfg.get("fuzz"):
+            fm = re.findall(r"fuzz: elapsed: (\S+), execs: (\d+) \(\d+/sec\), new interesting: (\d+) \(total: (\d+)\)", logtxt)
+            if fm:
+                extra["fuzz_target"] = pcfg["fuzz"]
+                extra["fuzz_execs"] = extra.get("fuzz_execs", 0) + int(fm[-1][1])
+                extra["fuzz_corpus_entries"] = int(fm[-1][3])
+                extra["fuzz_elapsed"] = fm[-1][0]
+                evals += int(fm[-1][1])
         sp = os.path.join(sdir, "stats-%s.json" % prop)
         if os.path.exists(sp):
             st = json.load(open(sp))
